@@ -276,6 +276,15 @@ def _cex(ctx, res, what, neg):
         return
     vals = {k: lib.to_float(core.zval(model, v)) for k, v in V.items()}
     rp = replay_kernel(res["task"], vals)
+    if not rp["disagree"]:
+        # number printing lies outside the symbolic model: before a counterexample is counted as not reproducing it is
+        # retried with values that need many significant digits (whole and fractional)
+        for shift in (1234567.0, 86400001.0, 0.123456789, -7654321.25):
+            vals2 = {k: v + shift for k, v in vals.items()}
+            rp2 = replay_kernel(res["task"], vals2)
+            if rp2["disagree"]:
+                vals, rp = vals2, rp2
+                break
     if rp["disagree"]:
         res["outcome"] = "violation"
         res["cex"] = {"what": what, "values": vals, "replay": rp}
